@@ -843,7 +843,9 @@ def gen_project(rng, tier):
     fixtures = []
     for i in range(rng.choice([1, 2, 3])):
         fixtures.append({"name": "fx%d" % i, "scope": rng.choice(["session", "suite"]), "generator": rng.random() < 0.6,
-                         "form": rng.choice(["genfunc", "genfunc", "delegating"]), "via": rng.random() < 0.4})
+                         "form": rng.choice(["genfunc", "genfunc", "delegating"]), "via": rng.random() < 0.4,
+                         # declared under two names (@lcc.fixture(names=[...])): the tests use the SECOND one
+                         "aliased": rng.random() < 0.3})
     suites = []
     for s in range(nsuites):
         tests = []
@@ -1140,6 +1142,8 @@ def check(run):
             run.nontrivial.add("B:" + json.dumps(spec, sort_keys=True))
         if any(e[0] == "teardown_raise" for e in res["events"]):
             run.count("projects_with_raising_fixture_teardown")
+        if any(f.get("aliased") for f in spec["fixtures"]):
+            run.count("projects_with_a_per_thread_fixture_declared_under_two_names")
         if any(f["generator"] and f.get("form") == "delegating" for f in spec["fixtures"]):
             run.count("projects_with_a_fixture_function_returning_a_generator")
         for h in oracle_project(spec, res):
